@@ -1021,6 +1021,28 @@ theorem lds_writeTag_tag (tag : Name) (value : PyVal) (dtn : Name) (r : Resp) (t
   · cases h
   · cases h; split <;> rfl
 
+theorem lds_multiPacketError_err (r : Resp) (e : Exn) (h : multiPacketError r = .error e) : r.error = .error e := by
+  unfold multiPacketError at h
+  split at h
+  · cases h
+  · split at h
+    · cases h
+    · exact h
+
+theorem lds_multiFailAll_keys (err : TagErr) (l : List (Int × Name)) :
+    ∀ (rs : Results), ∀ kt ∈ multiFailAll rs err l, kt ∈ rs ∨ ∃ x ∈ l, kt.1 = x.1 ∧ kt.2.tag = x.2 := by
+  induction l with
+  | nil => intro rs kt hkt; exact .inl hkt
+  | cons x rest ih =>
+    intro rs kt hkt
+    obtain ⟨rid, tag⟩ := x
+    rw [multiFailAll] at hkt
+    rcases ih _ kt hkt with h1 | ⟨y, hy, h2⟩
+    · rcases lds_set_mem _ _ _ _ h1 with h1 | rfl
+      · exact .inl h1
+      · exact .inr ⟨(rid, tag), List.mem_cons_self, rfl, rfl⟩
+    · exact .inr ⟨y, List.mem_cons_of_mem _ hy, h2⟩
+
 theorem lds_multiRead_keys (l : List (ReadReq × Option Bytes)) :
     ∀ (rs rs' : Results), multiReadResults rs l = .ok rs' →
       ∀ kt ∈ rs', kt ∈ rs ∨ ∃ x ∈ l, kt.1 = (x.1.rid : Int) ∧ kt.2.tag = x.1.tag := by
@@ -1131,22 +1153,42 @@ theorem lds_sendRequest_keys {σ} (hook : ObjHook σ) (w w' : Cli.World σ) (rs 
     simp only [sendRequest] at h
     split at h
     · cases h
-    · simp only [Prod.mk.injEq] at h
-      rcases lds_multiRead_keys _ _ _ h.2 kt hkt with h1 | ⟨x, hx, h1, h2⟩
-      · exact .inl h1
-      · refine .inr ?_
-        simp only [Request.lds_resKeys, List.mem_map]
-        exact ⟨x.1, (List.of_mem_zip hx).1, by rw [h1, h2]⟩
+    · split at h
+      · cases h
+      · simp only [Prod.mk.injEq, Except.ok.injEq] at h
+        rw [← h.2] at hkt
+        rcases lds_multiFailAll_keys _ _ _ kt hkt with h1 | ⟨y, hy, h1, h2⟩
+        · exact .inl h1
+        · refine .inr ?_
+          obtain ⟨x, hx, rfl⟩ := List.mem_map.1 hy
+          simp only [Request.lds_resKeys, List.mem_map]
+          exact ⟨x.1, (List.of_mem_zip hx).1, by rw [h1, h2]⟩
+      · simp only [Prod.mk.injEq] at h
+        rcases lds_multiRead_keys _ _ _ h.2 kt hkt with h1 | ⟨x, hx, h1, h2⟩
+        · exact .inl h1
+        · refine .inr ?_
+          simp only [Request.lds_resKeys, List.mem_map]
+          exact ⟨x.1, (List.of_mem_zip hx).1, by rw [h1, h2]⟩
   | multiWrite seq reqs =>
     simp only [sendRequest] at h
     split at h
     · cases h
-    · simp only [Prod.mk.injEq] at h
-      rcases lds_multiWrite_keys _ _ _ h.2 kt hkt with h1 | ⟨x, hx, h1, h2⟩
-      · exact .inl h1
-      · refine .inr ?_
-        simp only [Request.lds_resKeys, List.mem_map]
-        exact ⟨x.1, (List.of_mem_zip hx).1, by rw [h1, h2]⟩
+    · split at h
+      · cases h
+      · simp only [Prod.mk.injEq, Except.ok.injEq] at h
+        rw [← h.2] at hkt
+        rcases lds_multiFailAll_keys _ _ _ kt hkt with h1 | ⟨y, hy, h1, h2⟩
+        · exact .inl h1
+        · refine .inr ?_
+          obtain ⟨x, hx, rfl⟩ := List.mem_map.1 hy
+          simp only [Request.lds_resKeys, List.mem_map]
+          exact ⟨x.1, (List.of_mem_zip hx).1, by rw [h1, h2]⟩
+      · simp only [Prod.mk.injEq] at h
+        rcases lds_multiWrite_keys _ _ _ h.2 kt hkt with h1 | ⟨x, hx, h1, h2⟩
+        · exact .inl h1
+        · refine .inr ?_
+          simp only [Request.lds_resKeys, List.mem_map]
+          exact ⟨x.1, (List.of_mem_zip hx).1, by rw [h1, h2]⟩
 
 theorem lds_sendRequests_keys {σ} (hook : ObjHook σ) (reqs : List Request) :
     ∀ (w w' : Cli.World σ) (rs rs' : Results), sendRequests hook w rs reqs = (w', .ok rs') →
@@ -1859,8 +1901,13 @@ theorem lds_sendRequest_read_err {σ} (hook : ObjHook σ) (w w' : Cli.World σ) 
     simp only [sendRequest] at h
     split at h
     · next hs => simp only [Prod.mk.injEq, Except.error.injEq] at h; rw [← h.2]; exact tr _ _ _ hs
-    · simp only [Prod.mk.injEq] at h
-      exact .inr (.inr (lds_multiRead_err _ _ _ h.2))
+    · split at h
+      · next hm =>
+        simp only [Prod.mk.injEq, Except.error.injEq] at h; rw [← h.2]
+        exact .inr (.inr ⟨_, lds_multiPacketError_err _ _ hm⟩)
+      · cases h
+      · simp only [Prod.mk.injEq] at h
+        exact .inr (.inr (lds_multiRead_err _ _ _ h.2))
   | write _ => cases hk
   | writeFrag _ => cases hk
   | rmw _ => cases hk
@@ -2446,8 +2493,13 @@ theorem lds_sendRequest_err {σ} (hook : ObjHook σ) (w w' : Cli.World σ) (rs :
     simp only [sendRequest] at h
     split at h
     · next hs => simp only [Prod.mk.injEq, Except.error.injEq] at h; rw [← h.2]; exact .inl (tr _ _ _ hs)
-    · simp only [Prod.mk.injEq] at h
-      exact .inl (.inr (.inr (lds_multiWrite_err _ _ _ h.2)))
+    · split at h
+      · next hm =>
+        simp only [Prod.mk.injEq, Except.error.injEq] at h; rw [← h.2]
+        exact .inl (.inr (.inr ⟨_, lds_multiPacketError_err _ _ hm⟩))
+      · cases h
+      · simp only [Prod.mk.injEq] at h
+        exact .inl (.inr (.inr (lds_multiWrite_err _ _ _ h.2)))
 
 theorem lds_WSendErr_mono {σ} (hook : ObjHook σ) (l1 l2 : List Request) (e : Exn) (hsub : ∀ q ∈ l1, q ∈ l2)
     (h : lds_WSendErr hook l1 e) : lds_WSendErr hook l2 e := by
